@@ -335,3 +335,69 @@ def rule_N3(ctx):
         elif f["name"].startswith("ok_"):
             r.neg_control(f["name"], not hit)
     return r
+
+
+# --------------------------------------------------------------------------------------- N6
+def n6_sites(f):
+    """float inequalities that are tolerance tests: |x| compared with something, or a comparison with an EPSILON-like constant"""
+    mir = f["mir"]
+    asg = mirq.assignments(mir)
+    out = []
+    n = 0
+    for b in mir["blocks"]:
+        if b["cleanup"]:
+            continue
+        for s in b["stmts"]:
+            if s["k"] != "Assign" or s["rv"]["k"] != "BinaryOp" or s["rv"].get("lty") not in ("f64", "f32") or s["rv"]["op"] not in ("Lt", "Le", "Gt", "Ge"):
+                continue
+            n += 1
+            why = None
+            for side in ("l", "r"):
+                o = s["rv"][side]
+                c = o.get("const")
+                if c:
+                    txt = c.get("txt") or ""
+                    if "EPSILON" in txt or "MIN_POSITIVE" in txt:
+                        why = "compares with %s" % txt
+                    else:
+                        try:
+                            val = float(txt.replace("f64", "").replace("f32", "").replace("_", ""))
+                            if 0.0 < abs(val) < 1e-3:
+                                why = "compares with the small constant %s" % txt
+                        except ValueError:
+                            pass
+                l = mirq.op_local(o)
+                if l is not None:
+                    for og in mirq.origins(mir, l, asg):
+                        if og[1] == "term" and last(og[2].get("def") or "") == "abs" and "f64" in (og[2].get("def") or "") + (og[2].get("full") or ""):
+                            why = "compares an absolute value (|x| %s ..)" % s["rv"]["op"]
+                        if og[1] != "term" and og[2].get("k") == "Use" and "const" in og[2]["op"] and "EPSILON" in (og[2]["op"]["const"].get("txt") or ""):
+                            why = "compares with %s" % og[2]["op"]["const"]["txt"]
+            if why:
+                out.append((loc(s), why))
+    return out, n
+
+
+def rule_N6(ctx):
+    F = ctx.F
+    r = RuleResult("N6", "exact guards: the number implementation decides 'no result' only on exact conditions - no tolerance test (|x| < eps, comparison with EPSILON) turns a representable result into None")
+    roots, scope = number_scope(F)
+    r.floor("GarnishNumber methods of SimpleNumber", len(roots), 17)
+    total = 0
+    for p, f in sorted(scope.items()):
+        sites, n = n6_sites(f)
+        total += n
+        r.examine(p, n > 0, {"fn": p, "float_inequalities": n, "tolerance_tests": len(sites)} if n else None)
+        for k, (where, why) in enumerate(sites):
+            r.finding(p, "tolerance-test#%d" % (k + 1), where, "a float is tested with a tolerance (%s at %s): operands that are small but not zero are treated as zero, so a division with a finite, representable result yields unit" % (why, where))
+    r.analysed["float_inequalities_examined"] = total
+    _r2, fscope = number_scope(F, fixture_prefix="gfixture::round3::n6::")
+    for p, f in fscope.items():
+        if f["kind"] == "Closure":
+            continue
+        sites, _n = n6_sites(f)
+        if f["name"].startswith("ctl_"):
+            r.control(f["name"], bool(sites))
+        elif f["name"].startswith("ok_"):
+            r.neg_control(f["name"], not sites)
+    return r
